@@ -46,7 +46,7 @@ COMPONENTS = {
     "real": ["EnsembleOptimizer (stopping criteria, exit codes)", "optimizer / evaluator steps", "EnsembleEvaluator", "filters", "estimators", "ConstraintInfo", "SciPy plug-in + real scipy.optimize (40% of groups)"],
     "stub": ["SimEvaluator with fault plan", "sim/scripted optimizer (60% of groups)", "objective/constraint scalers"],
 }
-PROBES = ["abort_raised_at_event", "abort_raised_at_event_of_evaluator_step", "delivered_function_results_vs_budget", "estimator_deficiency_in_gradient_only_evaluation", "every_completed_evaluation_delivered", "all_failed_tolerated_run_continues", "too_few_expected", "too_few_by_filter", "too_few_by_estimator", "too_few_by_threshold", "max_functions_expected",
+PROBES = ["nested_plan_under_two_plans", "abort_raised_at_event", "abort_raised_at_event_of_evaluator_step", "delivered_function_results_vs_budget", "estimator_deficiency_in_gradient_only_evaluation", "every_completed_evaluation_delivered", "all_failed_tolerated_run_continues", "too_few_expected", "too_few_by_filter", "too_few_by_estimator", "too_few_by_threshold", "max_functions_expected",
           "user_abort_expected", "evaluator_exception_expected", "finished_expected", "real_scipy_backend", "parallel_de",
           "evaluator_step", "nested", "dontcare_zero_weight_survivors", "failing_results_delivered", "rms_zero_all_failed"]
 REAL = ["slsqp", "l-bfgs-b", "cobyla", "nelder-mead", "differential_evolution", "newton-cg"]
@@ -150,6 +150,15 @@ def _group_scenario(gseed: int) -> dict:
 
 def generate(seed: int, index: int, tier: str) -> dict:
     batch = int(os.environ.get("VERIF_SEED", "0"))
+    if (index // GROUP) % 25 == 12:
+        # a nested plan the user keeps, handed to the steps of two top-level plans in turn; in the run of the second
+        # plan every evaluation fails: the inner run ends with TOO_FEW_REALIZATIONS, the outer step with
+        # NESTED_OPTIMIZER_FAILED, and the results of the failing evaluation reach the handlers of the plans that run
+        from checks.c15 import two_outer_scenario
+
+        scn = two_outer_scenario(random.Random(run_seed(batch, PROP + "-two-outer", index)), PROP)
+        scn["second"] = "all-fail"
+        return scn
     scn = _group_scenario(run_seed(batch, PROP + "-group", index // GROUP))
     scn["member"] = index % GROUP
     scn["stratum"] = scn["backend"] + ("/" + scn["plan"]["steps"][0]["kind"] if scn["backend"] == "scripted" else "")
@@ -413,7 +422,21 @@ def check_run(ctx, scn, fault, viol, probes, baseline=None) -> tuple[int, str]:
     return 1, "FINISHED"
 
 
+def _execute_two_outer(scn: dict) -> dict:
+    from checks.c15 import execute_two_outer
+
+    out = execute_two_outer(scn)
+    # (no exit code is asserted here: the nested plan's tracker may still hold a result of its runs under the first
+    # plan, so whether the second outer step ends with NESTED_OPTIMIZER_FAILED or TOO_FEW_REALIZATIONS depends on the
+    # user's own nested function; what this stratum decides is that the failing evaluations' events and results
+    # reach the handlers of the plans that are running)
+    out["probes"] = {"nested_plan_under_two_plans": 1}
+    return out
+
+
 def execute(scn: dict) -> dict:
+    if scn.get("entry") == "nested_plan_under_two_plans":
+        return _execute_two_outer(scn)
     viol: list[dict] = []
     probes: dict[str, int] = {}
 
